@@ -21,7 +21,7 @@ PROPS = {
             'max_depth), count_nodes, count_exprs, binary_search; '
             'shape-bounded: __eq__/__hash__ on all shape pairs incl. '
             'coercions; native: pickle, filter_nodes'),
-    'C11': ('contracts.c11', 'exploration',
+    'C11': ('contracts.c11', 'proof',
             'unbounded: substitute (structural keys against the reference '
             'substitution; identity keys by per-node contributions and '
             'per-level assembly; identity of untouched nodes), '
